@@ -70,9 +70,13 @@ Definition signers (t : tx) : list addr :=
 Inductive signdoc := SignDoc (m : mode) (chain accnum seq txid : Z).
 Inductive digest := DEip (msgid seq : Z) | DRaw (d : signdoc).
 
-Record variant := mkVariant { v_check_sender : bool; v_continue : bool }.
-Definition as_is : variant := mkVariant false false.
-Definition repaired : variant := mkVariant true true.
+(* v_eip_single / v_raw_single: the "exactly one message" rule of the Ethereum path, per branch
+   (EIP-712 branch / raw MsgEthereumTx branch).  The digest resp. the raw transaction covers the
+   FIRST message only, so each rule is an obligation of its branch. *)
+Record variant := mkVariant { v_check_sender : bool; v_continue : bool; v_eip_single : bool; v_raw_single : bool }.
+Definition as_is : variant := mkVariant false false true true.      (* the tree before commit 313a134 *)
+Definition repaired : variant := mkVariant true true true true.     (* the tree as it is *)
+Definition is_nil {A} (l : list A) : bool := match l with [] => true | _ => false end.
 
 Definition eth_chain_id : Z := 8789.
 
@@ -170,8 +174,10 @@ Definition eth_prepare (v : variant) (t : tx) (a : addr) (acc : account) (x : sl
   match s_mode x with
   | MDirect =>
       match t_msgs t with
-      | [MEth _ _ raw] =>
-          if negb (r_ok raw) then EDone (Panic "nil transaction")
+      | [] => EDone (Err "no message")
+      | MEth _ _ raw :: rest =>
+          if v_raw_single v && negb (is_nil rest) then EDone (Err "only one message")
+          else if negb (r_ok raw) then EDone (Panic "nil transaction")
           else if negb (a_seq acc =? r_nonce raw) then EDone (Err "ethereum sequence mismatch")
           else if negb (r_chain raw =? eth_chain_id) then EDone (Err "invalid ethereum chain id")
           else match eth_sender (r_id raw) with
@@ -180,8 +186,9 @@ Definition eth_prepare (v : variant) (t : tx) (a : addr) (acc : account) (x : sl
                    if v_check_sender v && negb (snd =? a) then EDone (Err "sender is not the signer")
                    else EDone (Ok tt)
                end
-      | [MPlain id _] => EDigest (DEip id (a_seq acc))
-      | _ => EDone (Err "only one message")
+      | MPlain id _ :: rest =>
+          if v_eip_single v && negb (is_nil rest) then EDone (Err "only one message")
+          else EDigest (DEip id (a_seq acc))           (* the digest covers the first message only *)
       end
   | _ => EDigest (DRaw doc)
   end.
@@ -302,8 +309,11 @@ Definition EthAuthorised (c : ctxt) (s : state) (t : tx) (a : addr) (x : slot) :
     (EthSigned c t a x acc \/ EthRawSigned t a x acc).
 
 Definition no_eth_raw_msg (t : tx) : bool := negb (existsb is_eth_msg (t_msgs t)).
-(* the guard under which authentication is sound: the repaired code, or no raw Ethereum message *)
-Definition sound_for (v : variant) (t : tx) : bool := (v_check_sender v && v_continue v) || no_eth_raw_msg t.
+(* the guard under which authentication is sound: sender check + continue (or no raw Ethereum message),
+   and both single-message rules (or a single-message transaction) *)
+Definition single_msg (t : tx) : bool := match t_msgs t with [_] => true | _ => false end.
+Definition sound_for (v : variant) (t : tx) : bool :=
+  ((v_check_sender v && v_continue v) || no_eth_raw_msg t) && ((v_eip_single v && v_raw_single v) || single_msg t).
 
 (* room for n more increments of every sequence number without uint64 wrap-around *)
 Definition seq_room (s : state) (n : Z) : Prop :=
